@@ -10,6 +10,7 @@ Open Scope N_scope.
 
 (* ---- :Mword / :Nword  ->  == word / != word ---- *)
 Theorem word_tree_preserves e v pms pat positive from_empty neg add_u quoted d s :
+  no_dollar pat = true ->
   forallb plain_byte pat = true -> pat <> [] ->
   (quoted = true \/ try_parse_number pat = None) ->
   eval_expr e v pms = Some (d, s) -> wordlike s ->
@@ -20,12 +21,20 @@ Theorem word_tree_preserves e v pms pat positive from_empty neg add_u quoted d s
     (from_shape neg from_empty v (pms ++ [if positive then ModM pat else ModN pat]))
     (CCmp (LExpr v (u_mods add_u ++ pms)) (Bool.eqb neg positive) (rhs_leaf quoted pat)).
 Proof.
-  intros Hlit Hne Hq Hev Hs Hdef Hbare HN.
+  intros Hnd Hlit Hne Hq Hev Hs Hdef Hbare HN.
   apply (core_preserves e v pms pms pat pat (fun x => x) positive from_empty neg add_u quoted) with (d := d) (s := s);
     auto.
+  - apply expand_pat_literal. exact Hnd.
   - intros x _. apply str_match_literal. exact Hlit.
   - intros Hfe Hpos Hm. rewrite str_match_literal in Hm by exact Hlit.
     apply str_eqb_spec in Hm. subst s. auto.
+Qed.
+
+(* a pattern made of [xX] classes has no nested reference *)
+Lemma yn_pattern_no_dollar p ls : yn_pattern p ls -> no_dollar p = true.
+Proof.
+  induction 1 as [|a b l p ls H _ IH]; [reflexivity|].
+  repeat (apply no_dollar_cons; split); try exact IH; unfold is_upper, is_lower in H; lia.
 Qed.
 
 (* ---- :M[yY][eE][sS]  ->  :tl} == yes ---- *)
@@ -42,6 +51,7 @@ Proof.
   pose proof (yn_pattern_lower _ _ Hyn) as Hlow.
   apply (core_preserves e v pms (pms ++ [ModTl]) pat ls lower positive from_empty neg add_u false) with (d := d) (s := s);
     auto.
+  - apply expand_pat_literal. eapply yn_pattern_no_dollar. exact Hyn.
   - intros x _. apply str_match_yn. exact Hyn.
   - intros d0 s0 H. rewrite app_assoc. rewrite (eval_expr_snoc _ _ _ ModTl _ _ H). reflexivity.
   - right. apply alpha_not_number; [exact Hne|]. apply lower_is_alpha. exact Hlow.
@@ -92,14 +102,14 @@ Qed.
 Definition keeps_empty (m : modifier) : bool :=
   match m with ModU dflt => match dflt with [] => true | _ => false end | _ => true end.
 
-Lemma apply_mods_keeps_empty ms : forallb keeps_empty ms = true ->
-  forall d0 d r, d0 <> DRegular -> apply_mods ms (d0, []) = Some (d, r) -> r = [].
+Lemma apply_mods_keeps_empty e ms : forallb keeps_empty ms = true ->
+  forall d0 d r, d0 <> DRegular -> apply_mods e ms (d0, []) = Some (d, r) -> r = [].
 Proof.
   induction ms as [|m ms IH]; intros Hk d0 d r Hd0 H; simpl in *.
   - congruence.
   - apply andb_true_iff in Hk as [Hm Hk]. destruct m; simpl in *; try discriminate.
-    + eapply IH; [exact Hk|exact Hd0|exact H].
-    + eapply IH; [exact Hk|exact Hd0|exact H].
+    + destruct (expand_pat e pat); [|discriminate]. eapply IH; [exact Hk|exact Hd0|exact H].
+    + destruct (expand_pat e pat); [|discriminate]. eapply IH; [exact Hk|exact Hd0|exact H].
     + eapply IH; [exact Hk|exact Hd0|exact H].
     + destruct dflt; [|discriminate]. destruct d0; [congruence| |];
         (eapply IH; [exact Hk| |exact H]; discriminate).
@@ -111,7 +121,7 @@ Theorem and_tree_equivalent_fragment e v ms :
 Proof.
   intros Hk. apply and_tree_equivalent. intros Hv d r H.
   unfold eval_expr in H. rewrite Hv in H.
-  rewrite (apply_mods_keeps_empty ms Hk DUndef d r) by (assumption || discriminate). reflexivity.
+  rewrite (apply_mods_keeps_empty e ms Hk DUndef d r) by (assumption || discriminate). reflexivity.
 Qed.
 
 (* ================= the model's rewrites have these shapes ================= *)
@@ -127,6 +137,22 @@ Lemma in_set_true_In set c : in_set set c = true -> In c set.
 Proof.
   unfold in_set. intros H. apply existsb_exists in H as (x & Hin & Hx). apply N.eqb_eq in Hx. subst. exact Hin.
 Qed.
+
+(* a pattern over a byte set that lacks '$' has no nested reference *)
+Lemma set_no_dollar set : in_set set 36 = false ->
+  forall p, forallb (in_set set) p = true -> no_dollar p = true.
+Proof.
+  intros Hset. induction p as [|c p IH]; [reflexivity|]. cbn [forallb]. intros H.
+  apply andb_true_iff in H as [Hc Hp]. apply no_dollar_cons. split; [|apply IH; exact Hp].
+  intros ->. congruence.
+Qed.
+
+(* the byte-set gates as coded today: neither lets a '$' through *)
+Lemma lit_pattern_no_dollar p : forallb (in_set lit_pattern_set) p = true -> no_dollar p = true.
+Proof. apply set_no_dollar. vm_compute. reflexivity. Qed.
+
+Lemma simple_mod_no_dollar p : forallb (in_set simple_mod_set) p = true -> no_dollar p = true.
+Proof. apply set_no_dollar. vm_compute. reflexivity. Qed.
 
 (* MatchMatch's "exact" means: none of the bytes Str_Match treats specially *)
 Lemma exact_plain p : existsb (in_set match_special_set) p = false -> forallb plain_byte p = true.
@@ -330,11 +356,33 @@ Proof.
   destruct (negb (is_defined (cx_seen_prefs cx) (cx_var cx v)) && negb (has_modifier s_U mods)); reflexivity.
 Qed.
 
+Lemma forallb_mods_text_last f mods :
+  forallb f (mods_text mods) = true -> mods <> [] -> forallb f (last mods []) = true.
+Proof.
+  induction mods as [|m ms IH]; [congruence|]. intros H _.
+  unfold mods_text in *. cbn [map concat] in H. rewrite forallb_app in H.
+  apply andb_true_iff in H as [Hm Hms]. cbn [forallb] in Hm. apply andb_true_iff in Hm as [_ Hm].
+  destruct ms as [|m1 ms']; [exact Hm|]. apply IH; [exact Hms|discriminate].
+Qed.
+
+(* simplifyMatch's regex is on the whole modifier text, so it also restricts the pattern *)
+Lemma simple_mod_text_last mods pat :
+  mods <> [] -> last mods [] = 77 :: pat -> simple_mod_text (mods_text mods) = true -> no_dollar pat = true.
+Proof.
+  intros Hne Hl H. unfold simple_mod_text in H.
+  assert (Hall : forallb (in_set simple_mod_set) (mods_text mods) = true).
+  { destruct (mods_text mods); [discriminate|exact H]. }
+  pose proof (forallb_mods_text_last _ _ Hall Hne) as Hlast. unfold str in *. rewrite Hl in Hlast.
+  cbn [forallb] in Hlast. apply andb_true_iff in Hlast as [_ Hp].
+  apply simple_mod_no_dollar. exact Hp.
+Qed.
+
 Lemma simplify_match_inv cx v mods fe neg rw :
   In rw (simplify_match cx v mods fe neg) ->
   exists pat,
     last mods [] = 77 :: pat /\ mods <> [] /\ fe = true /\
     is_defined (cx_seen_prefs cx) (cx_var cx v) = true /\ pat <> [] /\
+    no_dollar pat = true /\        (* the regex on expr.Mod() lets no '$' through *)
     let ms := map classify_mod (removelast mods) ++ [ModM pat] in
     let may := match cx_mmn cx pat with MmnYes => true | _ => false end in
     rw_kind rw = KMatch /\
@@ -357,6 +405,9 @@ Proof.
   intros Hin. exists pattern.
   split; [exact Hlast|]. split; [discriminate|]. split; [exact Efe|]. split; [exact Edef|].
   destruct pattern as [|pc pr]; [discriminate Hexact|]. split; [discriminate|].
+  split.
+  { apply negb_false_iff in Esimple.
+    apply (simple_mod_text_last mods (pc :: pr)); [discriminate|exact Hlast|exact Esimple]. }
   cbv zeta.
   destruct (cx_mmn cx (pc :: pr)); [contradiction| |]; destruct Hin as [<-|[]]; repeat split; reflexivity.
 Qed.
